@@ -11,8 +11,7 @@ def run(pid, tier, seed, rundir, findings, t0):
     rc, out = java_tlc(SPEC, "SInt.tla", "SInt.cfg", metadir, env_extra={"TRACE": table})
     if "Model checking completed. No error has been found." not in out or "REJECTED" in out:
         raise ToolError("TLC did not accept the Integer table:\n" + tail_err(out))
-    viols = [dict(row=int(m.group(1)), tag=m.group(4), operands=m.group(5).replace('\\"', '"'))
-             for m in VIOL_RE.finditer(out)]
+    viols = [dict(row=v["line"], tag=v["tag"], operands=v["finding"].replace('\\"', '"')) for v in parse_viols(out)]
     hits = {}
     m = HITS_RE.search(out)
     if m:
